@@ -142,6 +142,61 @@ def obligations(r, tier, seed):
         obs.append(Ob("C16/difference-quotient-is-consistent/%s/%s" % (which, "-".join(types)), consistent, funcs=FUNCS, light=True,
                       scope="shape-bounded", bound="error family member %s on %s" % (which, "-".join(types))))
 
+    # ---- "to the accuracy of a 1e-6 forward difference": the points at which the error is ACTUALLY evaluated (observed through a
+    #      ghost log in the custom error function, real step constant, nothing patched) are the base point and, per compact
+    #      coordinate, one point whose difference from the base point (the real ominus) is a single step 0 < h <= 1.5e-6 -- whatever the
+    #      magnitude of the coordinates
+    for T in TYPES:
+        def actual_step(k, T=T):
+            r_ = k.r
+            np = k.np
+            log = []
+
+            class Logged(r_.BaseEdge):
+                def is_valid(self):
+                    return self._is_valid()
+
+                def calc_error(self):
+                    log.append([v.pose.copy() for v in self.vertices])
+                    return self.vertices[0].pose.to_compact()[:2] - self.vertices[1].pose.to_compact()[:2]
+            vs = [r_.Vertex(1, k.pose(T, "a")), r_.Vertex(2, k.pose(T, "b"))]
+            e = Logged([1, 2], np.eye(2), None, vs)
+            base = [v.pose.copy() for v in vs]
+            J = k.returns(lambda: e.calc_jacobians(), "numerical Jacobians are computed")
+            if J is None:
+                return
+            c = POSE_C[T]
+            B = 2.25e-12
+            TWO_PI = 2 * np.pi
+
+            def is_zero(x):
+                if k.mode == "num":
+                    return abs(float(x)) < 1e-18        # rounding residue of p (-) p; a real step has |step|^2 ~ 1e-12
+                from gsv.engine.sym import Sym
+                return (x.is_const() and x.const_value() == 0) if isinstance(x, Sym) else x == 0
+            moved = []
+            for snap in log:
+                for i in (0, 1):
+                    if T == "SE2":
+                        # translation difference; the stored angles differ by the step up to one full turn (the stored angle is wrapped)
+                        dxy2 = (snap[i][0] - base[i][0]) * (snap[i][0] - base[i][0]) + (snap[i][1] - base[i][1]) * (snap[i][1] - base[i][1])
+                        dth = snap[i][2] - base[i][2]
+                        if is_zero(dxy2) and is_zero(dth):
+                            continue
+                        small = (dxy2 <= B) & ((dth * dth <= B) | ((dth + TWO_PI) * (dth + TWO_PI) <= B) | ((dth - TWO_PI) * (dth - TWO_PI) <= B))
+                        moved.append((i, small & ((dxy2 > 0) | (dth * dth > 0))))
+                        continue
+                    d = list((snap[i] - base[i]).to_compact()) if T == "SE3" else list(snap[i].to_array() - base[i].to_array())
+                    n2 = 0
+                    for x in d:
+                        n2 = n2 + x * x
+                    if not is_zero(n2):
+                        moved.append((i, (n2 > 0) & (n2 <= B)))
+            k.check(len(moved) == 2 * c, "the error is evaluated at one perturbed point per compact coordinate of each vertex", len(moved))
+            for i, cond in moved:
+                k.holds(cond, "vertex %d: the perturbed evaluation point is within 1.5e-6 of the base point (|step|^2 <= 2.25e-12)" % i)
+        obs.append(Ob("C16/step-actually-used/%s" % T, actual_step, funcs=FUNCS, light=True))
+
     # ---- "over any number of vertices": the gradient / Hessian contributions of an n-ary edge with numerical Jacobians are
     #      e^T Omega J_i and J_i^T Omega J_j for every pair i <= j, keyed by the vertices' gradient indices (the accumulation the
     #      optimizer relies on; C03 proves it for opaque Jacobians, here it is stated for the numerically differentiated ones)
